@@ -286,8 +286,8 @@ impl Check for C02Check {
 
     fn cases(&self, tier: Tier) -> u64 {
         match tier {
-            Tier::Quick => 6_000,
-            Tier::Thorough => 60_000,
+            Tier::Quick => 10_000,
+            Tier::Thorough => 80_000,
         }
     }
 
